@@ -15,6 +15,10 @@ type GenOpt struct {
 	UniqueTagKeys bool
 	// NoAnnotations: no way-node / member annotations, updates, committed, bounds.
 	NoAnnotations bool
+	// NoteFractions: note dates (created, closed, comments) may carry fractions
+	// of a second. The notes XML format has whole seconds only; JSON keeps
+	// nanoseconds.
+	NoteFractions bool
 }
 
 var words = []string{"", "a", "highway", "name", "Main St", "é∑ü", "<&>\"'", " lead", "trail ", "tab\there", "line\nbreak", "cr\rhere", "日本語", "🙂 emoji", "a&amp;b", "]]>", "x=y&z", "--"}
@@ -159,19 +163,19 @@ func optBounds(t *rapid.T, o GenOpt) *Bounds {
 }
 
 func GenNode(t *rapid.T, o GenOpt) *Node {
-	return &Node{ID: int64(rapid.IntRange(-5, 1<<40).Draw(t, "id")), Lat: Coord(t, "lat"), Lon: Coord(t, "lon"), User: optStr(t, "user"), UID: int64(optInt(t, "uid", 1<<30)),
+	return &Node{ID: int64(rapid.IntRange(-5, 1<<40).Draw(t, "id")), Lat: Coord(t, "lat"), Lon: Coord(t, "lon"), User: optStr(t, "user"), UID: genUID(t, "uid"),
 		Visible: rapid.Bool().Draw(t, "visible"), Version: optInt(t, "version", 500), CS: int64(optInt(t, "cs", 1<<40)), T: optTime(t, "ts", o.WholeSeconds),
 		Tags: genTags(t, o), Committed: optCommitted(t, o)}
 }
 
 func GenWay(t *rapid.T, o GenOpt) *Way {
-	return &Way{ID: int64(rapid.IntRange(-5, 1<<40).Draw(t, "id")), User: optStr(t, "user"), UID: int64(optInt(t, "uid", 1<<30)),
+	return &Way{ID: int64(rapid.IntRange(-5, 1<<40).Draw(t, "id")), User: optStr(t, "user"), UID: genUID(t, "uid"),
 		Visible: rapid.Bool().Draw(t, "visible"), Version: optInt(t, "version", 500), CS: int64(optInt(t, "cs", 1<<40)), T: optTime(t, "ts", o.WholeSeconds),
 		Nodes: genWayNodes(t, o, "wn"), Tags: genTags(t, o), Committed: optCommitted(t, o), Updates: genUpdates(t, o), Bounds: optBounds(t, o)}
 }
 
 func GenRelation(t *rapid.T, o GenOpt) *Relation {
-	r := &Relation{ID: int64(rapid.IntRange(-5, 1<<40).Draw(t, "id")), User: optStr(t, "user"), UID: int64(optInt(t, "uid", 1<<30)),
+	r := &Relation{ID: int64(rapid.IntRange(-5, 1<<40).Draw(t, "id")), User: optStr(t, "user"), UID: genUID(t, "uid"),
 		Visible: rapid.Bool().Draw(t, "visible"), Version: optInt(t, "version", 500), CS: int64(optInt(t, "cs", 1<<40)), T: optTime(t, "ts", o.WholeSeconds),
 		Tags: genTags(t, o), Committed: optCommitted(t, o), Updates: genUpdates(t, o), Bounds: optBounds(t, o)}
 	n := rapid.IntRange(0, 4).Draw(t, "nmembers")
@@ -190,7 +194,7 @@ func GenRelation(t *rapid.T, o GenOpt) *Relation {
 }
 
 func GenChangeset(t *rapid.T, o GenOpt) *Changeset {
-	c := &Changeset{ID: int64(rapid.IntRange(1, 1<<40).Draw(t, "id")), User: optStr(t, "user"), UID: int64(optInt(t, "uid", 1<<30)),
+	c := &Changeset{ID: int64(rapid.IntRange(1, 1<<40).Draw(t, "id")), User: optStr(t, "user"), UID: genUID(t, "uid"),
 		CreatedAt: optTime(t, "created", o.WholeSeconds), ClosedAt: optTime(t, "closed", o.WholeSeconds), Open: rapid.Bool().Draw(t, "open"),
 		ChangesCount: optInt(t, "nchanges", 50000), CommentsCount: optInt(t, "ncomments", 50), Tags: genTags(t, o)}
 	if rapid.Bool().Draw(t, "bbox") {
@@ -206,10 +210,20 @@ func GenChangeset(t *rapid.T, o GenOpt) *Changeset {
 	return c
 }
 
+// genUID draws a user id: often from a tiny pool, so that several elements of
+// one document share a uid while carrying different user names (renamed
+// accounts in history extracts).
+func genUID(t *rapid.T, l string) int64 {
+	if rapid.Bool().Draw(t, l+"small") {
+		return int64(rapid.IntRange(0, 3).Draw(t, l))
+	}
+	return int64(optInt(t, l, 1<<30))
+}
+
 func GenNote(t *rapid.T, o GenOpt) *Note {
 	// note dates use the notes API format, which has whole seconds
 	n := &Note{ID: int64(rapid.IntRange(1, 1<<40).Draw(t, "id")), Lat: Coord(t, "lat"), Lon: Coord(t, "lon"), URL: optStr(t, "url"), CommentURL: optStr(t, "curl"),
-		CloseURL: optStr(t, "clurl"), ReopenURL: optStr(t, "rurl"), DateCreated: optTime(t, "created", true), DateClosed: optTime(t, "closedAt", true),
+		CloseURL: optStr(t, "clurl"), ReopenURL: optStr(t, "rurl"), DateCreated: optTime(t, "created", !o.NoteFractions), DateClosed: optTime(t, "closedAt", !o.NoteFractions),
 		Status: rapid.SampledFrom([]string{"", "open", "closed"}).Draw(t, "status")}
 	k := rapid.IntRange(0, 3).Draw(t, "ncomments")
 	if rapid.IntRange(0, 5).Draw(t, "sparse") == 0 {
@@ -217,7 +231,7 @@ func GenNote(t *rapid.T, o GenOpt) *Note {
 		n.ID, n.Status, n.DateCreated, n.DateClosed, k = 0, "", 0, 0, 0
 	}
 	for i := 0; i < k; i++ {
-		n.Comments = append(n.Comments, NoteComment{Date: optTime(t, "cdate", true), UID: int64(optInt(t, "cuid", 1<<30)), User: optStr(t, "cuser"), UserURL: optStr(t, "cuurl"),
+		n.Comments = append(n.Comments, NoteComment{Date: optTime(t, "cdate", !o.NoteFractions), UID: int64(optInt(t, "cuid", 1<<30)), User: optStr(t, "cuser"), UserURL: optStr(t, "cuurl"),
 			Action: rapid.SampledFrom([]string{"", "opened", "commented", "closed"}).Draw(t, "action"), Text: optStr(t, "text"), HTML: optStr(t, "html")})
 	}
 	return n
@@ -342,5 +356,5 @@ func GenLayout(t *rapid.T) Layout {
 	return Layout{Seed: int64(rapid.IntRange(1, 1<<30).Draw(t, "layoutSeed")), ShuffleAttrs: rapid.Bool().Draw(t, "shuffle"), SingleQuotes: rapid.Bool().Draw(t, "quotes"),
 		Expand: rapid.Bool().Draw(t, "expand"), Whitespace: rapid.Bool().Draw(t, "ws"), Declaration: rapid.Bool().Draw(t, "decl"), CharRefs: rapid.Bool().Draw(t, "charrefs"),
 		UnknownAttrs: rapid.Bool().Draw(t, "uattrs"), UnknownElems: rapid.Bool().Draw(t, "uelems"), FloatZeros: rapid.Bool().Draw(t, "fzeros"), TimeVariants: rapid.Bool().Draw(t, "tvariants"),
-		BoolDigits: rapid.IntRange(0, 3).Draw(t, "booldigits") == 0}
+		BoolDigits: rapid.IntRange(0, 3).Draw(t, "booldigits") == 0, Namespace: rapid.SampledFrom([]int{0, 0, 0, 1, 2}).Draw(t, "namespace")}
 }
